@@ -40,6 +40,7 @@ fn main() {
         std::process::exit(2);
     }
     let args = vcore::report::parse_args(&argv[2..]);
+    vcore::report::start_watchdog(args.tier);
     let code = match argv[1].as_str() {
         "C16" => c16::run(&args),
         "C17" => c17::run(&args),
